@@ -70,7 +70,7 @@ def expect_ro(op, frozen):
     k = op[0]
     if k == "memoize":
         return None
-    if k in ("forget_call", "forget_fn", "forget_all", "wmeta"):
+    if k in ("forget_call", "forget_fn", "forget_all", "wmeta", "wmetad"):
         return "rejected"
     return storeops.Model.apply(frozen, op)
 
@@ -117,6 +117,12 @@ def run_ro(case, out):
         audit = fsobs.AuditLog(roots)
         b = open_ro(sc, case["variant"])
         ops = storeops.gen_history(rng, 40)
+        # metadata "stored with the data" is a write of its own kind (next to the data object)
+        live = sorted(frozen.d)
+        for _ in range(3):
+            if live:
+                f, a = rng.choice(live)
+                ops.insert(rng.randrange(len(ops)), ["wmetad", f, a, "log", "m%d" % rng.randrange(3)])
         audit.start()
         flags = drive_ro(b, refs, vals, frozen, ops, out, "variant %s" % (VARIANTS[case["variant"]],))
         audit.stop()
@@ -192,7 +198,8 @@ def run_function_level(sc, case, rng, out, roots_unused):
     for name, fn in (("forget", lambda: ffuncs.produce.forget("a")),
                      ("forget_all", lambda: ffuncs.produce.forget_all()),
                      ("forget_cluster", lambda: m.forget_cluster()),
-                     ("put_metadata", lambda: ffuncs.produce.put_metadata("log", b"x", "a"))):
+                     ("put_metadata", lambda: ffuncs.produce.put_metadata("log", b"x", "a")),
+                     ("put_metadata(store_with_data)", lambda: ffuncs.produce.put_metadata("log2", b"x", "b", store_with_data=True))):
         try:
             fn()
             out["viol"].append({"sig": "%s through a read-only cluster is not rejected" % name, "msg": label})
